@@ -34,14 +34,17 @@ type pend struct {
 
 func (rn *runner) do(cfg config, seq []op, tie *lib.Tie, class string) {
 	var obs []stepObs
+	stateOnly := cfg.stateOnly(seq)
 	if cfg.foreign() {
 		// a record configured under a key it does not carry: outside the property's hypothesis, tie only
 		obs = runSeqMon(nil, cfg, seq)
 		tie.Count("foreign-key-configuration")
-	} else if cfg.Icpt != "" {
-		// the mode collection behind an id interceptor: own monitor (icpt.go), streams feed the tie
+	} else if cfg.Icpt != "" || len(cfg.ActiveWritable) > 0 || stateOnly {
+		// the mode collection behind an id interceptor: own monitor (icpt.go), streams feed the tie;
+		// resource options on the active mode / clock readings the model has no notion of (resopts.go): same monitor,
+		// ids compared as they are
 		obs = runSeqMon(nil, cfg, seq)
-		key := cfg.line() + "\n"
+		key := cfg.line() + " " + strings.Join(cfg.ActiveWritable, ",") + "\n"
 		for _, o := range seq {
 			key += o.line() + "\n"
 		}
@@ -69,7 +72,7 @@ func (rn *runner) do(cfg config, seq []op, tie *lib.Tie, class string) {
 		}
 		tie.Count("result:" + r)
 	}
-	if rn.drv == nil {
+	if rn.drv == nil || stateOnly {
 		return
 	}
 	rn.lines = append(rn.lines, cfg.line())
@@ -866,6 +869,9 @@ func main() {
 	rn.flush()
 	rn.icptFamily(ic, r, 3, f.N(2, 3), f.N(200, 6000))
 	rn.flush()
+	rn.resourceOptionFamily(tie, r, f.N(3, 4), f.N(300, 6000))
+	rn.clockRangeFamily(tie, r, f.N(400, 8000))
+	rn.flush()
 	rn.do(config{}, exhaustedSeq(), tie, "id-exhaustion")
 	for i := 0; i < f.N(1500, 30000); i++ {
 		n := 1 + r.Intn(12)
@@ -944,8 +950,13 @@ func replay(f lib.Flags) int {
 			join = *in.LateJoin
 			fmt.Println("a second subscriber joins PullModes / PullActiveMode (not updates-only) after", join, "operation(s)")
 		}
-		if in.Init.Icpt != "" {
-			fmt.Println("the mode collection has an id interceptor (" + in.Init.Icpt + "): ids are compared up to spelling")
+		if in.Init.Icpt != "" || len(in.Init.ActiveWritable) > 0 || in.Init.stateOnly(in.Ops) {
+			if in.Init.Icpt != "" {
+				fmt.Println("the mode collection has an id interceptor (" + in.Init.Icpt + "): ids are compared up to spelling")
+			}
+			if len(in.Init.ActiveWritable) > 0 {
+				fmt.Println("the active mode resource has writable fields:", in.Init.ActiveWritable)
+			}
 			obs := runSeqMon(nil, in.Init, in.Ops)
 			for i, st := range obs {
 				fmt.Printf("step %d: %s -> %s %s\n", i, st.Op.line(), st.Out, st.State)
